@@ -2,7 +2,9 @@
 pub mod cupref;
 pub mod engine;
 pub mod jsongen;
+pub mod model;
 pub mod props;
 pub mod respgen;
+pub mod sim;
 pub mod tape;
 pub mod urlref;
